@@ -6996,9 +6996,12 @@ class Device(utils.CompositeEventEmitter):
         # Parse the L2CAP payload into an ATT PDU object
         att_pdu = att.ATT_PDU.from_bytes(pdu)
 
-        # Conveniently, even-numbered op codes are client->server and
-        # odd-numbered ones are server->client
-        if att_pdu.op_code & 1:
+        # Responses, notifications and indications are for the client, everything
+        # else (requests, commands and confirmations, known or not) for the server
+        if att_pdu.op_code in att.ATT_RESPONSES or att_pdu.op_code in (
+            att.Opcode.ATT_HANDLE_VALUE_NOTIFICATION,
+            att.Opcode.ATT_HANDLE_VALUE_INDICATION,
+        ):
             if connection.gatt_client is None:
                 logger.warning(
                     'No GATT client for connection 0x%04X', connection.handle
